@@ -117,6 +117,7 @@ func (n *node) config() *raft.Config {
 	cfg := &raft.Config{}
 	cfg.Default()
 	cfg.DataFolder = filepath.Join(n.dir, "raft")
+	cfg.Tracing = tracing
 	cfg.InitPeerset = n.peers
 	cfg.WaitForLeaderTimeout = readyTimeout
 	cfg.RaftConfig.HeartbeatTimeout = 400 * time.Millisecond
@@ -487,7 +488,11 @@ func childMain(dir string) {
 }
 
 func (s *single) startChild() error {
-	cmd := exec.Command(os.Args[0], "-child", s.n.dir)
+	tr := "0"
+	if tracing {
+		tr = "1"
+	}
+	cmd := exec.Command(os.Args[0], "-child", s.n.dir, "-tracing", tr)
 	cmd.Env = os.Environ()
 	in, err := cmd.StdinPipe()
 	if err != nil {
@@ -640,6 +645,7 @@ func runSingle(kind string, ops []op, events []string) ([]op, []string, []string
 }
 
 func runRaftCase(out *common.Out, kind string, nrep int, ops []op, events []string) {
+	tracing = tracingFor(ops)
 	var run func() ([]op, []string, []string, error)
 	switch kind {
 	case "raft1", "kill":
